@@ -100,12 +100,15 @@ class MPFixedFormat(OrdinalFormat):
         if not isinstance(x, Float) and self.representable_in(x):
             raise TypeError(f'Expected a representable \'Float\', got \'{type(x)}\' for x={x}')
 
+        # re-express `x` with the format's exponent: digits above it are
+        # shifted into the significand; below it a representable value
+        # has only zeros, which are shifted off
         offset = x.exp - self.expmin
         if offset > 0:
-            c = x.c >> offset
+            c = x.c << offset
             exp = x.exp - offset
         elif offset < 0:
-            c = x.c << -offset
+            c = x.c >> -offset
             exp = x.exp - offset
         else:
             c = x.c
